@@ -97,7 +97,8 @@ class Gen:
     def __init__(self, rng, opts=None):
         self.rng = rng
         self.o = dict(max_depth=4, n_helpers=2, n_stmts=8, floats=True, matrices=True, structs=True, pointers=True,
-                      atomics=False, workgroup=True, raw_shifts=False, f2i_safe=True, special_floats=False, loops=True)
+                      atomics=False, workgroup=True, raw_shifts=False, f2i_safe=True, special_floats=False, loops=True,
+                      avoid=(), dyn_index=True)
         if opts:
             self.o.update(opts)
         self.structs = []      # {"name", "members": [{"n", "t"}]}
@@ -189,13 +190,13 @@ class Gen:
             return
         if is_vec(vt):
             if want == vt[2]:
-                out.append({"e": "idx", "a": e, "i": lit("i32", self.rng.below(vt[1]))})
+                out.append({"e": "idx", "a": e, "i": self.small_index(vt[1])})
                 out.append({"e": "swz", "a": e, "p": [self.rng.below(vt[1])]})
             if is_vec(want) and want[2] == vt[2] and self.rng.chance(1, 2):
                 out.append({"e": "swz", "a": e, "p": [self.rng.below(vt[1]) for _ in range(want[1])]})
         elif isinstance(vt, list) and vt[0] == "mat":
             col = ["vec", vt[2], "f32"]
-            self._paths({"e": "idx", "a": e, "i": lit("i32", self.rng.below(vt[1]))}, col, want, out, depth + 1)
+            self._paths({"e": "idx", "a": e, "i": self.small_index(vt[1])}, col, want, out, depth + 1)
         elif isinstance(vt, list) and vt[0] == "arr":
             n = vt[1]
             if n is None:
@@ -208,6 +209,12 @@ class Gen:
         elif isinstance(vt, list) and vt[0] == "struct":
             for k, m in enumerate(self.struct_def(vt[1])["members"]):
                 self._paths({"e": "mem", "a": e, "m": k, "name": m["n"]}, m["t"], want, out, depth + 1)
+
+    def small_index(self, n):
+        """index into a vector / the columns of a matrix: a literal, or (one time in three) a run-time value kept in range"""
+        if self.o["dyn_index"] and self.rng.chance(1, 3):
+            return {"e": "bin", "op": "%", "a": self.index_expr_u32(), "b": lit("u32", n)}
+        return lit("i32", self.rng.below(n))
 
     def index_expr_u32(self):
         """a cheap u32 expression available everywhere (set per function by caller)"""
@@ -257,8 +264,9 @@ class Gen:
                 return {"e": "un", "op": "~", "a": self.expr(env, t, d)}
             return {"e": "un", "op": rng.choice(["-", "~"] if t == "i32" else ["-"]), "a": self.expr(env, t, d)}
         if p == "builtin_int":
-            f = rng.choice(["abs", "min", "max", "clamp", "countOneBits", "countLeadingZeros", "countTrailingZeros",
-                            "reverseBits", "firstLeadingBit", "firstTrailingBit", "extractBits", "insertBits"])
+            f = rng.choice([x for x in ["abs", "min", "max", "clamp", "countOneBits", "countLeadingZeros", "countTrailingZeros",
+                                        "reverseBits", "firstLeadingBit", "firstTrailingBit", "extractBits", "insertBits"]
+                            if x not in self.o["avoid"]])
             if f in ("min", "max"):
                 return {"e": "builtin", "f": f, "args": [self.expr(env, t, d), self.expr(env, t, d)]}
             if f == "clamp":
@@ -269,7 +277,8 @@ class Gen:
                 return {"e": "builtin", "f": f, "args": [self.expr(env, t, d), self.expr(env, t, d), self.expr(env, "u32", 0), self.expr(env, "u32", 0)]}
             return {"e": "builtin", "f": f, "args": [self.expr(env, t, d)]}
         if p == "builtin_f":
-            f = rng.choice(["abs", "min", "max", "clamp", "floor", "ceil", "trunc", "round", "sign", "fma", "saturate"])
+            f = rng.choice([x for x in ["abs", "min", "max", "clamp", "floor", "ceil", "trunc", "round", "sign", "fma", "saturate"]
+                            if x + ":f32" not in self.o["avoid"]])
             n = {"min": 2, "max": 2, "clamp": 3, "fma": 3}.get(f, 1)
             if f == "clamp":
                 return self.fclamp(env, t, d)
@@ -396,10 +405,10 @@ class Gen:
         if depth >= 3:
             return
         if is_vec(vt):
-            out.append(({"e": "idx", "a": e, "i": lit("i32", self.rng.below(vt[1]))}, vt[2]))
+            out.append(({"e": "idx", "a": e, "i": self.small_index(vt[1])}, vt[2]))
             out.append(({"e": "swz", "a": e, "p": [self.rng.below(vt[1])]}, vt[2]))
         elif vt[0] == "mat" if isinstance(vt, list) else False:
-            self._lpaths({"e": "idx", "a": e, "i": lit("i32", self.rng.below(vt[1]))}, ["vec", vt[2], "f32"], out, depth + 1)
+            self._lpaths({"e": "idx", "a": e, "i": self.small_index(vt[1])}, ["vec", vt[2], "f32"], out, depth + 1)
         elif isinstance(vt, list) and vt[0] == "arr":
             n = vt[1]
             if n is None:
